@@ -1182,7 +1182,15 @@ class DictTerm(PreTerm):
     # only holds values
     def __init__(self, value):
         assert isinstance(value, dict)
-        self.value = value.copy()
+
+        def canonical(v):
+            # numpy scalars as the equivalent Python scalars (as Value does), so the printed dictionary can be read back
+            canonical_type = data_algebra.util.map_type_to_canonical(type(v))
+            if (canonical_type is not type(v)) and (v is not None):
+                return canonical_type(v)
+            return v
+
+        self.value = {canonical(k): canonical(v) for k, v in value.items()}
         PreTerm.__init__(self)
 
     def is_equal(self, other):
